@@ -1,7 +1,7 @@
 (* C12 - the VM is total, bounded and memory-safe on every script.
    Statements only; every proof is [exact lemma]. *)
 From NG Require Import VM.Model VM.Total VM.LimitsData VM.Limits VM.Reach VM.Static VM.StaticProofs VM.RefsFlat VM.RefsFlatOps VM.RefsFlatStep
-  VM.RefsInv VM.RefsMoves VM.RefsData VM.RefsOps VM.RefsComp VM.RefsShape VM.RefsExact VM.RefsExactOps VM.Loader VM.RefsStep.
+  VM.RefsInv VM.RefsMoves VM.RefsData VM.RefsOps VM.RefsComp VM.RefsShape VM.RefsExact VM.RefsExactOps VM.Loader VM.LoaderProofs VM.RefsStep.
 Open Scope Z_scope.
 
 (* the premise on the price table generated from pkg/core/fee: every opcode costs at least one unit, except the
@@ -337,6 +337,39 @@ Example C12_static_release_per_context_refuted :
   | Running s => depth s = 3 /\ reach_count s = 5 /\ s_refs s = 5 /\
                  snd (clear_slot (sc_static (s_sc s)) (s_heap s, s_refs s)) = 2
   | _ => False end.
+Proof. vm_compute. repeat split; reflexivity. Qed.
+
+(* ------------------------------------------------------------------------------------------------------------
+   The limits hold through EVERY context-pushing entry point.  [sys_load] (VM/Loader.v) pushes contexts the way
+   vm.LoadScript, LoadScriptWithFlags, LoadScriptWithHash, LoadDynamicScript, LoadNEFMethod (without and with _initialize, with
+   the callbacks natives pass, with arguments moved as System.Contract.Call does) and Call do; each of them checks the
+   invocation stack size before pushing.  So every state an execution reaches - any scripts, any mix of entry points -
+   keeps all the limits of C12_step_limits; in particular it has at most 1024 contexts.
+   ------------------------------------------------------------------------------------------------------------ *)
+Theorem C12_run_with_limits : forall scripts n s,
+  limits_ok s ->
+  match run_with (sys_load scripts) n s with
+  | Running s' => limits_ok s'
+  | Halted s' => limits_ok s' /\ s_refs s' <= MaxStackSize
+  | Faulted _ => True
+  end.
+Proof. exact run_with_limits. Qed.
+Print Assumptions C12_run_with_limits.
+
+Theorem C12_depth_bounded_all_loaders : forall n prog scripts sid base limit s,
+  (run_with (sys_load scripts) n (init_state prog sid base limit) = Running s \/
+   run_with (sys_load scripts) n (init_state prog sid base limit) = Halted s) ->
+  depth s <= MaxInvocationStackSize /\ zlen (f_try (s_fr s)) <= MaxTryNestingDepth.
+Proof. exact depth_bounded_all_loaders. Qed.
+Print Assumptions C12_depth_bounded_all_loaders.
+
+(* a loader without the check is refuted: the script SYSCALL(LoadNEFMethod, itself) nests for ever; with the unchecked
+   loaders 1030 instructions give 1031 contexts, with the checked ones the 1024th load FAULTs *)
+Example C12_loader_without_check_refuted :
+  let prog := [65; 1; 3; 0; 0] in
+  match run_with (sys_load_unchecked [prog]) 1030 (init_state prog 1%N 1 100000000) with
+  | Running s => depth s = 1031 | _ => False end /\
+  match run_with (sys_load [prog]) 1030 (init_state prog 1%N 1 100000000) with Faulted _ => True | _ => False end.
 Proof. vm_compute. repeat split; reflexivity. Qed.
 
 (* A special case proved in the first round (from any compound-free state, not only the initial one): as long as none of the
